@@ -32,6 +32,84 @@ def make_checker(accepted, log, ident):
     return checker
 
 
+class AllowList:
+    """a registered checker that is a callable OBJECT whose truth value is false (an empty container with __call__)"""
+    def __init__(self, allowed):
+        self.allowed = allowed
+        self.calls = []
+
+    def __len__(self):
+        return 0
+
+    def __call__(self, value):
+        self.calls.append(value)
+        return value in self.allowed
+
+
+def unusual_checkers(res, stats):
+    """registered is registered, whatever kind of callable the checker is; and a string is rejected on account of a format only when
+    the checker RETURNED false - a checker that raises has said nothing, its exception is the caller's to see"""
+    from statham.schema.validation.format import format_checker as fc
+    from statham.schema.elements import String, Element, Not
+    from statham.schema.exceptions import ValidationError
+    saved = dict(fc._callable_register)
+
+    def outcome(el, v):
+        with warnings.catch_warnings(record=True) as w:
+            warnings.simplefilter("always")
+            try:
+                el(v)
+                k = "ok"
+            except ValidationError:
+                k = "rej"
+            except BaseException as exc:  # noqa
+                k = "raised:" + type(exc).__name__
+        return k, any(issubclass(x.category, RuntimeWarning) for x in w)
+    try:
+        for allowed in (set(), {"red"}):
+            chk = AllowList(allowed)
+            fc.register("c16-allow")(chk)
+            for el in (String(format="c16-allow"), Element(format="c16-allow")):
+                for v in ("red", "blue"):
+                    got = outcome(el, v)
+                    want = ("ok" if v in allowed else "rej", False)
+                    stats["unusual_checker_calls"] = stats.get("unusual_checker_calls", 0) + 1
+                    if got != want or chk.calls[-1:] != [v]:
+                        res.violation({"property": "C16", "kind": "oracle", "history": "register('c16-allow')(<callable object with len() == 0, allows %r>); check %r" % (sorted(allowed), v),
+                                       "what": "a registered checker object whose truth value is false: outcome %r (warned=%r), expected %r without warning, checker consulted exactly once"
+                                               % (got[0], got[1], want[0])})
+
+        def natural(value):
+            return int(value) >= 0          # raises ValueError on a string that is not a number
+
+        def picky(value):
+            if value == "t":
+                raise TypeError("no")
+            return value == "y"
+        fc.register("c16-natural")(natural)
+        fc.register("c16-picky")(picky)
+        for name, v, exc in (("c16-natural", "abc", "ValueError"), ("c16-picky", "t", "TypeError")):
+            for el, label in ((String(format=name), "String"), (Element(format=name), "Element")):
+                got = outcome(el, v)
+                stats["unusual_checker_calls"] = stats.get("unusual_checker_calls", 0) + 1
+                if got[0] == "rej":
+                    res.violation({"property": "C16", "kind": "oracle", "history": "register(%r)(<checker raising %s on %r>); %s(format=%r)(%r)" % (name, exc, v, label, name, v),
+                                   "what": "the string was REJECTED on account of the format although the registered checker did not return false (it raised %s)" % exc})
+            if exc == "TypeError":
+                continue          # compositions take a TypeError from below for a rejection (tolerated by C10's statement): not this property's business
+            got = outcome(Not(String(format=name)), v)
+            if got[0] == "ok":
+                res.violation({"property": "C16", "kind": "oracle", "history": "Not(String(format=%r))(%r) with a checker raising %s" % (name, v, exc),
+                               "what": "an enclosing `not` ACCEPTS the value: a rejection on account of the format was invented for a checker that raised"})
+        for name, v, want in (("c16-natural", "12", "ok"), ("c16-natural", "-3", "rej"), ("c16-picky", "y", "ok"), ("c16-picky", "n", "rej")):
+            got = outcome(String(format=name), v)
+            if got != (want, False):
+                res.violation({"property": "C16", "kind": "oracle", "history": "String(format=%r)(%r)" % (name, v), "what": "outcome %r, expected %r" % (got, want)})
+    finally:
+        fc._callable_register.clear()
+        fc._callable_register.update(saved)
+
+
 def gen_history(rng, tier):
     n = rng.randint(3, 14 if tier == "quick" else 30)
     names = rng.sample(NAMES, rng.randint(1, 4))
@@ -195,6 +273,8 @@ def run(tier, seed, replay=None):
             hists.append([["chk", k, nm, s] for s in STRINGS for k in (True, False)])
         for _ in range(150 if tier == "quick" else 3000):
             hists.append(gen_history(rng, tier))
+    if not replay:
+        unusual_checkers(res, stats)
     cases, metas = [], []
     for ops in hists:
         obs, bad, builtin_tables = run_history(ops)
